@@ -90,4 +90,21 @@ theorem C05_split_independent (Z : ZFun) (crc : List UInt8 → Nat) (level chunk
       s.bad = false ∧ s'.bad = false :=
   Compress.Proofs.XWSplit.split_independent Z crc level chunk index hasConf ops ops' s0 s0' h0 h0' hn
 
+/-- **`oracleOf` is faithful.**  For a streaming `Z` (what it has emitted at one flush is a prefix
+    of what it has emitted at the next) the run against `oracleOf Z …` never mismatches the oracle,
+    and its log of compressor calls is that of a compressor computing `Z`: every Write accepted its
+    data and emitted nothing, and after every Flush the bytes emitted since the last Reset are
+    exactly `Z.emit level (data since the Reset) (flush positions since the Reset)` (`ZBehaves`) —
+    in particular the total emitted for each chunk is `Z.emit` of the chunk's data and flush
+    positions, whatever the Write boundaries were. -/
+theorem C05_oracleOf_behaves (Z : ZFun) (hS : Z.Streaming) (crc : List UInt8 → Nat) (level chunk index : Int)
+    (hasConf : Bool) (ops : List WOp) (s0 : XWState)
+    (h0 : newWriter level chunk index hasConf {} (oracleOf Z level chunk hasConf ops) = some s0) :
+    let s := (runW crc s0 ops).1
+    s.bad = false ∧ ZBehaves Z (effLevel level hasConf) s.zlog :=
+  Compress.Proofs.XWSplit.oracleOf_behaves Z hS crc level chunk index hasConf ops s0 h0
+
+/-- non-vacuity of the compressor contract: the stored-block compressor is a streaming `ZFun`. -/
+theorem C05_storedZ_streaming : storedZ.Streaming := Compress.Proofs.XWSplit.storedZ_streaming
+
 end Compress.Props.C05
